@@ -867,7 +867,8 @@ class TermCanvas(Canvas):
 
                 self.push_char(char, x, y)
 
-                self.is_rotten_cursor = False
+                # still "rotten" if the character went into the rightmost position (one column terminal)
+                self.is_rotten_cursor = x >= self.width
         else:
             if x + 1 < self.width:
                 x += 1
